@@ -15,12 +15,16 @@ EXPLANATION = ("Union and difference of two shards are ordered two-way merges wh
                "absent or larger; equal heads are both skipped, a smaller head of the first shard is skipped.  For file records with the same "
                "hash under union the record whose flag set is a superset is the one copied (compare_flag_superset is checked bit-precisely "
                "over all 2^64 flag pairs), and when neither is a superset both are merged; every other case is delegated to the hash table "
-               "with the two records' own file hashes.  The loop that applies the actions (copying / skipping exactly one record of the "
-               "stream the action belongs to) is confirmed natively, not by the solver.")
+               "with the two records' own file hashes.  Application of the actions (Mode A over set_operation's step loops): every "
+               "stream-indexed operand of a step uses the step's own index, a copied record is entered into the lookup table under the "
+               "running entry index which then advances by 1 + the record's following entries, a skipped record's stream is moved by "
+               "exactly its entries * 48 bytes, the consumed stream's head is reloaded; every record-copying loop advances the output "
+               "offset by exactly what it writes (per iteration, or (count) * (record size) right after the loop).  Consolidation "
+               "deletes an input only behind the guard that protects returned shards (Mode B).")
 BOUNDS = "all paths of get_next_actions / get_next_actions_for_file_info / compare_flag_superset; all 32-bit flag values; any hash order"
 ASSUMPTIONS = ["<DataHash as Ord>::cmp is a total order and <Ordering as PartialEq>::eq(cmp(a,b), Equal) agrees with it (derived impls)",
                "input shards are sorted by hash without duplicates (C09 side: serialize_from writes BTreeMap order)"]
-OUTSIDE = ["the application of the actions in set_operation (record copying through the readers, lookup tables, totals): native replay only",
+OUTSIDE = ["the bytes of the records copied by set_operation and the Merge arm's choice of the stream each optional part is read from (native replay only); decided are the step's stream-index consistency, lookup registration, entry-index and output-offset accounting",
            "consolidate_shards_in_directory's grouping arithmetic and the content of the merged shard (its deletion guard and write-before-delete order are decided here by Mode B)", "retrievability of the output through its lookup tables (C09 obligations on the search)"]
 
 ACT = {"CopyToOut": 0, "SkipOver": 1, "Nothing": 2, "Merge": 3}
@@ -321,3 +325,269 @@ SMT = [
       replay=native_test("c10_consolidate_native", "C10 violated", "native replay passes: consolidation keeps every record, returned shards exist under their content hash")),
 ]
 KANI = []
+
+
+def _set_operation(fns):
+    return mir.find_fn(fns, r"^(set_operations::)?set_operation$")
+
+
+def _record_sizes():
+    """size_of::<T>() of the fixed-size records, as pinned by the source's const_assert!s"""
+    consts = symex.const_table([os.path.join(REPO, "mdb_shard/src/shard_format.rs"), os.path.join(REPO, "mdb_shard/src/shard_file.rs")])
+    sizes = {}
+    for fp in ("mdb_shard/src/shard_format.rs", "mdb_shard/src/shard_file.rs"):
+        try:
+            src = open(os.path.join(REPO, fp)).read()
+        except OSError:
+            continue
+        for m in re.finditer(r"const_assert!\((\w+) == size_of::<(\w+)>\(\)\);", src):
+            if m.group(1) in consts:
+                sizes[m.group(2)] = consts[m.group(1)][0]
+    symex.Sym.CONSTS = consts
+    models = dict(symex.STD_MODELS)
+    for tname, sz in sizes.items():
+        models[r"size_of::<(\w+::)*%s>$" % tname] = (lambda v: (lambda sym, path, args, dty: bv(bvconst(v, 64), 64)))(sz)
+    return sizes, models
+
+
+def build_offsets(fns):
+    """set_operation: the running output offset (from which every section offset of the footer is taken) advances by exactly the bytes
+    each record-copying loop writes: either every iteration adds the byte count its own write returned, or the iterations add nothing
+    and the code right after the loop adds (number of iterations) * (record size)"""
+    f = _set_operation(fns)
+    sizes, models = _record_sizes()
+    if "out_offset" not in f.debug:
+        raise LookupError("set_operation: out_offset not found")
+    oo = symex.parse_place(f.debug["out_offset"][0])[1]
+    loops = mir.natural_loops(f)
+    SER = r"(FileDataSequenceEntry|FileVerificationEntry|FileMetadataExt|CASChunkSequenceEntry)::serialize"
+    heads = [h for h, body in loops.items() if re.search(r"Range<u32> as Iterator>::next", f.blocks[h][1]) and any(re.search(SER, f.blocks[b][1]) for b in body)]
+    if len(heads) < 5:
+        raise LookupError("set_operation: expected at least 5 record-copying loops, found %d" % len(heads))
+    sc = smt.Script("c10_output_offset_accounting")
+    for li, h in enumerate(sorted(heads, key=lambda x: int(x[2:]))):
+        rec = [m.group(1) for b in loops[h] for m in [re.search(SER, f.blocks[b][1])] if m][0]
+        if rec not in sizes:
+            raise LookupError("record size of %s is not pinned by a const_assert" % rec)
+        s = symex.Sym(f, prefix="of%d." % li, models=models, max_visits=1)
+        p0 = symex.Path()
+        p0.decls = s.decls
+        o0 = s.load(p0, ("local", oo), "u64").t
+        # the range the loop runs over: the iterator handed to next()
+        t = mir.parse_term(f.blocks[h][1])
+        itl = None
+        for st in f.blocks[h][0]:
+            m = re.match(r"(_\d+) = &mut (_\d+)$", st)
+            if m and re.search(r"(copy|move) %s$" % m.group(1), t["args"][0].strip()):
+                itl = m.group(2)
+        if itl is None:
+            raise LookupError("loop %s: iterator local not found" % h)
+        n32 = s.load(p0, ("field", ("local", itl), 1, "u32"), "u32").t
+        s32 = s.load(p0, ("field", ("local", itl), 0, "u32"), "u32").t
+        label = "loop %d (%s records)" % (li, rec)
+        body_style = set()
+        for i, p in enumerate(s.run(h, stop_blocks=set(loops) - {h}, stop_at_call=r"as Fn<\(&mut R, &(\w+::)*MDBShardInfo\)>>::call$|Seek>::seek$|write_u32|write_u64", max_paths=2000)):
+            if p.end != "bound":
+                continue
+            sr = [e for e in p.events if re.search(SER, e[0])]
+            if len(sr) != 1:
+                sc.query("%s: one record is written per iteration [path %d]" % (label, i), ["true"])
+                continue
+            o1 = s.load(p, ("local", oo), "u64").t
+            # byte count returned by this iteration's write: the Continue payload of the `?` after serialize
+            ret = None
+            seen_ser = False
+            for bb in p.trace:
+                tt = mir.parse_term(f.blocks[bb][1])
+                if tt["kind"] == "call" and re.search(SER, tt["func"]):
+                    seen_ser = True
+                elif seen_ser and tt["kind"] == "call" and re.search(r"as Try>::branch$", tt["func"]) and ret is None:
+                    v = p.store.get("%s#vContinue.0" % tt["dest"].strip())
+                    ret = v.t if v is not None and v.kind == "bv" else "?"
+            if o1 == o0:
+                body_style.add("B")
+            else:
+                body_style.add("A")
+                want = "(bvadd %s %s)" % (o0, ret if (ret and ret != "?") else "unknown")
+                sc.query("%s: an iteration that moves the output offset adds exactly the byte count its own write returned [path %d]" % (label, i),
+                         p.pc + [mk_not(mk_eq(o1, "(bvadd %s %s)" % (o0, ret)))] if (ret and ret != "?") else ["true"])
+            sc.query("witness: %s iteration feasible [path %d]" % (label, i), p.pc, expect="sat", kind="witness")
+        if len(body_style) != 1:
+            sc.query("%s: all iterations account for their write in the same way" % label, ["true"])
+            continue
+        # continuation after the loop: from the creation of the range the loop runs over (0..n), through the loop's exit edge, up to
+        # the next write / the next loop.  The body does not assign the header the range end was read from.
+        preds = {}
+        for bb in f.order:
+            if f.blocks[bb][2]:
+                continue
+            for sx in mir.successors(mir.parse_term(f.blocks[bb][1])):
+                preds.setdefault(sx, []).append(bb)
+        start = None
+        cand = [b_ for b_ in preds.get(h, []) if b_ not in loops[h]]
+        for _ in range(4):
+            nxt_c = []
+            for b_ in cand:
+                if any(re.search(r"= std::ops::Range::<u32> \{ start: const 0_u32, end: ", st) for st in f.blocks[b_][0]):
+                    start = b_
+                nxt_c += [x for x in preds.get(b_, []) if x not in loops[h]]
+            if start:
+                break
+            cand = nxt_c
+        if start is None:
+            sc.query("%s: the loop runs over a range 0..n created just before it" % label, ["true"])
+            sc.declare(s.decls)
+            continue
+        s2 = symex.Sym(f, prefix="ox%d." % li, models=models, max_visits=1)
+        # the output offset at the moment the range is created (the start block may begin with the tail of an earlier `+=`)
+        pre_paths = s2.run(start, stop_after=lambda bb_, st_: bb_ == start and re.search(r"= std::ops::Range::<u32> \{ start: const 0_u32, end: ", st_) is not None, max_paths=10)
+        if len(pre_paths) != 1 or pre_paths[0].end != "stop":
+            raise LookupError("loop %s: range creation block not straight-line" % h)
+        o0x = s2.load(pre_paths[0], ("local", oo), "u64").t
+        nexit = 0
+        other_heads = set(loops) - {h}
+        for i, p in enumerate(s2.run(start, stop_blocks=other_heads, stop_at_call=r"::serialize::<|write_u32|write_u64|as Fn<\(&mut R, &(\w+::)*MDBShardInfo\)>>::call$|Seek>::seek$", max_paths=2000)):
+            if p.end != "stop" or any(re.search(SER, e[0]) for e in p.events) or sum(1 for b_ in p.trace if b_ in loops[h]) > 2:
+                continue  # not the zero-iteration path through the loop's exit edge
+            rng = [v for k_, v in p.store.items() if v.kind == "tuple" and v.items and len(v.items) == 2 and all(x.kind == "bv" and x.w == 32 for x in v.items) and v.items[0].t == bvconst(0, 32)]
+            if not rng:
+                continue
+            nexit += 1
+            n32x = rng[-1].items[1].t
+            o1 = s2.load(p, ("local", oo), "u64").t
+            if "A" in body_style:
+                sc.query("%s: nothing is added for the loop as a whole when every iteration already added its write [exit path %d]" % (label, i), p.pc + [mk_not(mk_eq(o1, o0x))])
+            else:
+                want = "(bvadd %s (bvmul ((_ zero_extend 32) %s) %s))" % (o0x, n32x, bvconst(sizes[rec], 64))
+                sc.query("%s: the code after the loop adds (number of records) * %d bytes [exit path %d]" % (label, sizes[rec], i), p.pc + [mk_not(mk_eq(o1, want))])
+        if not nexit:
+            sc.query("%s: the loop has an exit continuation up to the next write" % label, ["true"])
+        sc.declare(s.decls)
+        sc.declare(s2.decls)
+    return [sc]
+
+
+SMT.append(Q("c10_output_offset_accounting", "the output offset of the set operation advances by exactly what each record-copying loop writes", "mdb_shard", build_offsets,
+             functions=[_F + "set_operation (record-copying loops and their continuations)"], bounds="one iteration of each loop from an arbitrary state; the straight-line code after each loop",
+             solvers=("z3", "cvc5-bv"), replay=replay))
+
+
+def _cas_header_field(name):
+    src = open(os.path.join(REPO, "mdb_shard/src/cas_structs.rs")).read()
+    body = src[src.index("pub struct CASChunkSequenceHeader"):]
+    body = body[body.index("{") + 1:body.index("\n}")]
+    names = [m.group(1) for m in re.finditer(r"^\s+pub (\w+):", body, re.M)]
+    return names.index(name)
+
+
+def build_application(fns):
+    """set_operation: one step of the `for i in [0, 1]` loop of each section applies action[i] to stream i only: every reader /
+    header / shard operand indexed in the step uses the step's own index; a copied record is entered into the lookup table under
+    the current entry index, which then advances by 1 + the record's following entries; a skipped record's stream is moved
+    forward by exactly its entries; the stream's head is reloaded after a copy or a skip"""
+    f = _set_operation(fns)
+    sizes, models = _record_sizes()
+    loops = mir.natural_loops(f)
+    sc = smt.Script("c10_action_application")
+    sections = (("file section", r"FileDataSequenceHeader::serialize", r"as Fn<\(&mut R, &(\w+::)*MDBShardInfo\)>>::call$", r"Vec::<\(u64, u32\)>::push$"),
+                ("xorb section", r"CASChunkSequenceHeader::serialize", r"as Fn<\(&mut R, &(\w+::)*MDBShardInfo\)>>::call$", r"Vec::<\(u64, u32\)>::push$"))
+    for label, hdr_ser, load_next, lk_push in sections:
+        heads = [h for h, b in loops.items() if re.search(r"IntoIter<usize, 2> as Iterator>::next", f.blocks[h][1]) and any(re.search(hdr_ser, f.blocks[x][1]) for x in b)]
+        if len(heads) != 1:
+            raise LookupError("%s: step loop not found (%s)" % (label, heads))
+        head = heads[0]
+        ci_places = [pl for pl in f.debug.get("current_index", [])]
+        s = symex.Sym(f, prefix=label[:4] + ".", models=models, max_visits=1)
+        # complete steps: paths that come back to the step loop's head (inner record loops taken zero times)
+        paths = [p for p in s.run(head, max_paths=20000) if p.end == "bound" and p.visits.get(head, 0) == 2]
+        # which current_index local this section uses: the one written on some path
+        ncopy = nskip = 0
+        for i, p in enumerate(paths):
+            ev = p.events
+            names = [re.sub(r"::<.*", "", e[0]) for e in ev]
+            is_copy = any(re.search(hdr_ser, e[0]) for e in ev)
+            is_seek = any(re.search(r"Seek>::seek$", e[0]) for e in ev)
+            reload = [e for e in ev if re.search(load_next, e[0])]
+            # (a) index consistency
+            idx = set()
+            for e in ev:
+                for a in e[4]:
+                    txt = (s.key(a.t) if a.kind == "ref" else str(a.t))
+                    for m in re.finditer(r"\[(_\d+)\]|__(\d+)_", txt):
+                        idx.add(m.group(1) or "_" + m.group(2))
+                    if a.kind == "tuple" and a.items:
+                        for it in a.items:
+                            txt2 = (s.key(it.t) if it.kind == "ref" else str(it.t))
+                            for m in re.finditer(r"\[(_\d+)\]|__(\d+)_", txt2):
+                                idx.add(m.group(1) or "_" + m.group(2))
+            if is_copy or is_seek:
+                is_merge = any(re.search(r"verify_same_file", e[0]) for e in ev)
+                if not is_merge:
+                    sc.query("%s: every stream-indexed operand of a step uses the step's own index [path %d]" % (label, i), ["false"] if len(idx) == 1 else ["true"])
+                    sc.query("%s: the head of the stream that was consumed is reloaded, once [path %d]" % (label, i), ["false"] if len(reload) == 1 else ["true"])
+            else:
+                sc.query("%s: a step with action Nothing touches no stream [path %d]" % (label, i), ["false"] if not reload and not idx - set() or not reload else ["true"])
+            if is_copy and not any(re.search(r"verify_same_file", e[0]) for e in ev):
+                ncopy += 1
+                pushes = [e for e in ev if re.search(lk_push, e[0])]
+                ok = len(pushes) == 1 and pushes[0][4][1].kind == "tuple" and len(pushes[0][4][1].items) == 2 and pushes[0][4][1].items[1].kind == "bv"
+                if not ok:
+                    sc.query("%s: a copied record is entered into the lookup table once [path %d]" % (label, i), ["true"])
+                    continue
+                cur = pushes[0][4][1].items[1].t
+                m = re.match(r"[\w.]+\.(_\d+)$", cur)
+                if not m:
+                    sc.query("%s: the lookup entry carries the running entry index [path %d]" % (label, i), ["true"])
+                    continue
+                ci = m.group(1)
+                post = s.load(p, ("local", ci), "u32").t
+                th = [e for e in ev if re.search(r"truncate_hash$", e[0])]
+                sc.query("%s: the lookup key is the truncated hash computed in this step [path %d]" % (label, i),
+                         ["false"] if th and pushes[0][4][1].items[0].kind == "bv" and any(p.store.get(mir.parse_term(f.blocks[e[2]][1])["dest"].strip()) is not None and
+                                                                                         p.store[mir.parse_term(f.blocks[e[2]][1])["dest"].strip()].t == pushes[0][4][1].items[0].t for e in th) else ["true"])
+                # following entries: xorb records: num_entries of the header; file records: num_info_entry_following()
+                fol = [e for e in ev if re.search(r"num_info_entry_following$", e[0])]
+                if fol:
+                    fv = p.store.get(mir.parse_term(f.blocks[fol[-1][2]][1])["dest"].strip())
+                    follow = fv.t if fv is not None and fv.kind == "bv" else None
+                else:
+                    # xorb records: num_entries of the header that was written (a field of the local holding that header reference)
+                    hs = [e for e in ev if re.search(hdr_ser, e[0])][0][4][0]
+                    follow = None
+                    ne = _cas_header_field("num_entries")
+                    for k_, v in p.store.items():
+                        m2 = re.match(r"\*(_\d+)\.%d$" % ne, k_)
+                        if m2 and v.kind == "bv" and v.w == 32 and p.store.get(m2.group(1)) is not None and p.store[m2.group(1)].t == hs.t:
+                            follow = v.t
+                if follow is None:
+                    sc.query("%s: the number of entries following the header is read in this step [path %d]" % (label, i), ["true"])
+                else:
+                    sc.query("%s: the running entry index advances by 1 + the record's following entries [path %d]" % (label, i),
+                             p.pc + [mk_not(mk_eq(post, "(bvadd %s (bvadd %s %s))" % (cur, bvconst(1, 32), follow)))])
+                sc.query("witness: %s copy step feasible [path %d]" % (label, i), p.pc, expect="sat", kind="witness")
+            elif is_seek and not is_copy:
+                nskip += 1
+                sk = [e for e in ev if re.search(r"Seek>::seek$", e[0])]
+                a = sk[0][4][1]
+                ok = a.kind == "tuple" and a.t == "ctor:Current" and a.items and a.items[0].kind == "bv"
+                if ok:
+                    # (entries as i64) * (48 as i64)
+                    cands = [v.t for k_, v in p.store.items() if v.kind == "bv" and v.w == 32]
+                    fol = [e for e in ev if re.search(r"num_info_entry_following$", e[0])]
+                    if fol:
+                        fv = p.store.get(mir.parse_term(f.blocks[fol[-1][2]][1])["dest"].strip())
+                        cands = [fv.t] if fv is not None and fv.kind == "bv" else []
+                    goal = "(or %s)" % " ".join(mk_eq(a.items[0].t, "(bvmul ((_ zero_extend 32) %s) %s)" % (c_, bvconst(48, 64))) for c_ in cands) if cands else "false"
+                    sc.query("%s: a skipped record moves its stream forward by (entries following the header) * 48 bytes [path %d]" % (label, i), p.pc + [mk_not(goal)])
+                else:
+                    sc.query("%s: a skip is a relative seek [path %d]" % (label, i), ["true"])
+                sc.query("witness: %s skip step feasible [path %d]" % (label, i), p.pc, expect="sat", kind="witness")
+        if not (ncopy and nskip):
+            raise LookupError("%s: expected copy and skip steps (%d/%d)" % (label, ncopy, nskip))
+        sc.declare(s.decls)
+    return [sc]
+
+
+SMT.append(Q("c10_action_application", "one step of the set operation applies its action to its own stream and keeps the entry index exact", "mdb_shard", build_application,
+             functions=[_F + "set_operation (step loops of the file and xorb sections)"], bounds="one step from an arbitrary state; inner record loops taken zero times (their iterations are decided by c10_output_offset_accounting)",
+             solvers=("z3", "cvc5-bv"), replay=replay))
